@@ -15,10 +15,12 @@ const relayHost = "http://relay.invalid"
 // Outcome is what one refresh of the execution configuration meets.
 type Outcome struct {
 	// Kind: doc | unresolvable | fetch-error | malformed | empty | bad-version |
-	// no-default | wrong-type | accounts-error | no-accounts
+	// no-default | wrong-type | accounts-error | no-accounts |
+	// json-null | json-null-ws | json-true | json-number | json-string | json-array |
+	// null-relay | null-proposer | null-proposer-relay | legacy-null-entry
 	Kind  string `json:"kind"`
 	Doc   int    `json:"doc,omitempty"`    // doc, unresolvable: index into Case.Docs
-	BadAt int    `json:"bad_at,omitempty"` // unresolvable: position of the entry that cannot be applied
+	BadAt int    `json:"bad_at,omitempty"` // unresolvable, null-proposer: position of the entry; legacy-null-entry: validator index
 	// Slow: the source takes its time to answer; the other calls of the step
 	// must complete while the fetch is still pending (concurrent steps only).
 	Slow bool `json:"slow,omitempty"`
@@ -153,23 +155,35 @@ func genV1(t *rapid.T) *V1 {
 	return d
 }
 
-func genOutcome(t *rapid.T, c *Case) Outcome {
-	kind := rapid.SampledFrom([]string{
+func genOutcome(t *rapid.T, c *Case, initial bool) Outcome {
+	kinds := []string{
 		"doc", "doc", "doc", "doc", "doc", "doc", "doc", "doc",
 		"unresolvable", "unresolvable", "unresolvable", "unresolvable",
 		"fetch-error", "fetch-error", "malformed", "malformed", "empty", "bad-version", "no-default", "wrong-type",
 		"accounts-error", "no-accounts",
-	}).Draw(t, "outcome")
+	}
+	if !initial {
+		// Content that is JSON but not a configuration object, and documents with
+		// null entries.  Not used as the initial outcome: New() starts a registration
+		// round on a goroutine of its own, where a panic could not be attributed.
+		kinds = append(kinds, "json-null", "json-null", "json-null-ws", "json-true", "json-number", "json-string", "json-array",
+			"null-relay", "null-proposer", "null-proposer-relay", "legacy-null-entry", "legacy-null-entry")
+	}
+	kind := rapid.SampledFrom(kinds).Draw(t, "outcome")
 	o := Outcome{Kind: kind}
-	if kind == "doc" || kind == "unresolvable" {
+	switch kind {
+	case "doc", "unresolvable", "null-relay", "null-proposer", "null-proposer-relay", "legacy-null-entry":
 		o.Doc = rapid.IntRange(0, len(c.Docs)-1).Draw(t, "doc")
 	}
-	if kind == "unresolvable" {
+	switch kind {
+	case "unresolvable", "null-proposer":
 		n := 0
 		if d := c.Docs[o.Doc].V2; d != nil {
 			n = len(d.Proposers)
 		}
 		o.BadAt = rapid.IntRange(0, n).Draw(t, "badAt")
+	case "legacy-null-entry":
+		o.BadAt = rapid.IntRange(0, len(c.Validators)-1).Draw(t, "nullValidator")
 	}
 	return o
 }
@@ -196,7 +210,7 @@ func genCase(t *rapid.T) Case {
 			c.Docs = append(c.Docs, Doc{Version: 2, V2: genV2(t)})
 		}
 	}
-	c.Initial = genOutcome(t, &c)
+	c.Initial = genOutcome(t, &c, true)
 	slot := uint64(1000)
 	type auc struct {
 		slot uint64
@@ -211,7 +225,7 @@ func genCase(t *rapid.T) Case {
 		op := Op{Kind: rapid.SampledFrom(kinds).Draw(t, "op")}
 		switch op.Kind {
 		case "refresh":
-			o := genOutcome(t, &c)
+			o := genOutcome(t, &c, false)
 			if inBatch {
 				o.Slow = rapid.IntRange(0, 2).Draw(t, "slow") == 0
 			}
